@@ -7,7 +7,9 @@
 //	OUT ok|err <l>:<c>:<o>|panic|hang  same|diff|diff-error-text:<hex>:<hex>
 //	                                                   outcome of Parse(); all 5 runs on these bytes identical
 //	                                                   (kind, position, Error()/Reason() text, Defs())?
+//	                                                   diff-aliased-buffer: Defs() changed when the caller's buffer was overwritten
 //	COV <kind>                                         a feature of the generated file (counted in the evidence)
+//	HIST <kind> same | diff <details>                  an earlier text parsed again after other parses: first outcome again?
 //
 // preceded by the classification of non-ASCII runes (UNI L|D <lo> <hi>, from unicode.IsLetter /
 // unicode.IsDigit) and, in every mode, a stream of NUM lines (strconv oracle):
@@ -48,6 +50,8 @@ type result struct {
 	pos  scanner.Position
 	dump string
 	msg  string // err: Error() and Reason() of the returned error (compared between the repetitions only)
+	// Defs() changed when the caller's buffer was overwritten after the parse (first run of a case only)
+	aliased bool
 }
 
 func dumpDefs(defs []dbc.Def) (s string) {
@@ -62,18 +66,40 @@ func dumpDefs(defs []dbc.Def) (s string) {
 }
 
 // one run of a fresh parser on a private copy of the bytes, panics caught
-func parseRun(data []byte) (res result) {
+// one run of a fresh parser, panics caught. The parser is given [buf], a buffer that the CALLER owns and
+// reuses (it holds the bytes of the previous run before): when [alias] is set the buffer is afterwards
+// overwritten - with 0xFF bytes, then with another text (the input rotated by one byte) - and Defs() is
+// dumped again each time: the definitions must not have changed (they must not alias the caller's bytes).
+func parseRun(data, buf []byte, alias bool) (res result) {
 	var p *dbc.Parser
+	finish := func() {
+		res.dump = ""
+		if p == nil {
+			return
+		}
+		res.dump = dumpDefs(p.Defs())
+		if !alias {
+			return
+		}
+		for i := range buf {
+			buf[i] = 0xff
+		}
+		d2 := dumpDefs(p.Defs())
+		for i := range buf {
+			buf[i] = data[(i+1)%len(data)]
+		}
+		if d3 := dumpDefs(p.Defs()); d2 != res.dump || d3 != res.dump {
+			res.aliased = true
+		}
+	}
 	defer func() {
 		if r := recover(); r != nil {
 			res.kind = "panic"
-			res.dump = ""
-			if p != nil {
-				res.dump = dumpDefs(p.Defs())
-			}
+			finish()
 		}
 	}()
-	p = dbc.NewParser("x", append([]byte(nil), data...))
+	copy(buf, data)
+	p = dbc.NewParser("x", buf)
 	err := p.Parse()
 	if err == nil {
 		res.kind = "ok"
@@ -82,18 +108,19 @@ func parseRun(data []byte) (res result) {
 		res.pos = err.Position()
 		res.msg = err.Error() + "\x00" + err.Reason()
 	}
-	res.dump = dumpDefs(p.Defs())
+	finish()
 	return res
 }
 
 // parseRuns runs of fresh parsers on the same bytes, each under a 2 s timeout: the result of the first
 // run and whether every later run gave the same outcome kind, error position, error text and Defs()
 // ("same" | "diff" | "diff-error-text:<hex of the first text>:<hex of the other>")
-func parseAll(data []byte) (result, string) {
-	ch := make(chan result, parseRuns)
+func parseAll(data []byte, runs int) (result, string) {
+	ch := make(chan result, runs)
 	go func() {
-		for i := 0; i < parseRuns; i++ {
-			ch <- parseRun(data)
+		buf := make([]byte, len(data)) // the caller's buffer, reused by all runs of this text
+		for i := 0; i < runs; i++ {
+			ch <- parseRun(data, buf, i == 0)
 		}
 	}()
 	timer := time.NewTimer(2 * time.Second)
@@ -101,6 +128,7 @@ func parseAll(data []byte) (result, string) {
 	var first result
 	same := "same"
 	note := func(r result) {
+		r.aliased = first.aliased // looked at in the first run only
 		switch {
 		case r == first || same != "same":
 		case r.kind == first.kind && r.pos == first.pos && r.dump == first.dump:
@@ -110,7 +138,7 @@ func parseAll(data []byte) (result, string) {
 			same = "diff"
 		}
 	}
-	for i := 0; i < parseRuns; i++ {
+	for i := 0; i < runs; i++ {
 		if i > 0 {
 			if !timer.Stop() {
 				select {
@@ -148,7 +176,87 @@ func parseAll(data []byte) (result, string) {
 			return first, "diff" // a later run of the same bytes did not terminate
 		}
 	}
+	if first.aliased && same == "same" {
+		same = "diff-aliased-buffer"
+	}
 	return first, same
+}
+
+// ---- history: repetitions separated by OTHER parses
+//
+// A sample of the texts parsed so far is kept with its first outcome (one ring of accepted texts, one of
+// rejected ones; which cases enter and which entry is checked is decided by the seed). After every
+// histEvery-th case one entry of each ring is parsed again - now with all the parses in between behind it,
+// failing ones and files that mention the same names included - and must give its first outcome again
+// (kind, position, error text, Defs()).
+
+type histEntry struct {
+	mode  string
+	n     int
+	seq   int
+	text  []byte
+	first result
+}
+
+const (
+	histEvery = 4
+	histSize  = 48
+)
+
+var (
+	histRings [2][]histEntry // 0: accepted, 1: rejected
+	histSeq   int
+	histRand  uint64
+)
+
+func histNext(n int) int {
+	histRand = histRand*6364136223846793005 + 1442695040888963407
+	return int((histRand >> 33) % uint64(n))
+}
+
+func history(mode string, n int, text []byte, r result) {
+	histSeq++
+	if histSeq%histEvery == 0 {
+		for k := range histRings {
+			if len(histRings[k]) == 0 {
+				continue
+			}
+			e := &histRings[k][histNext(len(histRings[k]))]
+			again, _ := parseAll(e.text, 1)
+			f := e.first
+			again.aliased, f.aliased = false, false
+			if again == f {
+				fmt.Fprintf(w, "HIST %s-history-%s same\n", e.mode, f.kind)
+				continue
+			}
+			cmp := func(a, b string) string {
+				if a == b {
+					return "same"
+				}
+				return "differs"
+			}
+			fmt.Fprintf(w, "HIST %s-history-%s diff first=%s:%d parses-in-between=%d was=%s@%x:%x:%x now=%s@%x:%x:%x defs=%s error-text=%s t:%s last-parsed-before:%s\n",
+				e.mode, f.kind, e.mode, e.n, histSeq-e.seq, f.kind, f.pos.Line, f.pos.Column, f.pos.Offset,
+				again.kind, again.pos.Line, again.pos.Column, again.pos.Offset, cmp(f.dump, again.dump), cmp(f.msg, again.msg),
+				hex.EncodeToString(e.text), hex.EncodeToString(text))
+		}
+	}
+	k := -1
+	switch r.kind {
+	case "ok":
+		k = 0
+	case "err":
+		k = 1
+	}
+	if k < 0 || len(text) == 0 || len(text) > 4096 {
+		return
+	}
+	e := histEntry{mode: mode, n: n, seq: histSeq, text: append([]byte(nil), text...), first: r}
+	if len(histRings[k]) < histSize {
+		histRings[k] = append(histRings[k], e)
+	} else if histNext(6) == 0 {
+		histRings[k][histNext(histSize)] = e
+	}
 }
 
 func prefixed(prefix, dump string) {
@@ -191,7 +299,7 @@ func emitCase(mode string, n int, text []byte, extra string, expected []dbc.Def,
 	// the same bytes are parsed parseRuns times by fresh parsers; "same" = every run gave the outcome, the
 	// error position, the error text (Error(), Reason()) and the Defs() of the first one (behaviour that depends on map iteration order or
 	// on other per-run state shows up only in some of the runs)
-	r1, same := parseAll(text)
+	r1, same := parseAll(text, parseRuns)
 	prefixed("A", r1.dump)
 	if site := validateSite(r1, text); site != "" {
 		fmt.Fprintf(w, "COV %s-validate-%s\n", mode, site)
@@ -206,6 +314,7 @@ func emitCase(mode string, n int, text []byte, extra string, expected []dbc.Def,
 		w.Flush()
 		os.Exit(0)
 	}
+	history(mode, n, text, r1)
 }
 
 // features of a generated file that the evidence counts: multi-byte UTF-8 inside a string per
@@ -400,6 +509,9 @@ func invalidFor(g *gen, t *tok) string {
 	r := g.r
 	pick := func(xs ...string) string { return xs[r.Intn(len(xs))] }
 	badIdent := func(s string) string {
+		if r.Intn(2) == 0 {
+			return g.oddName() // a spelling that other files of this run use as an attribute name
+		}
 		switch r.Intn(4) {
 		case 0:
 			return strings.Repeat("I", 129)
@@ -642,15 +754,28 @@ func main() {
 	mode := os.Args[1]
 	seed := int64(atoi(os.Args[2]))
 	g := &gen{r: rand.New(rand.NewSource(seed))}
+	histRand = uint64(seed)*0x9e3779b97f4a7c15 + 1
 	emitUnicode()
 	switch mode {
 	case "c04":
 		files, maxDefs := atoi(os.Args[3]), atoi(os.Args[4])
 		emitNums(g, 1500)
+		nfail, prevFailing := 0, ""
 		for n := 0; n < files; n++ {
 			f := g.genFile(maxDefs)
 			emitCoverage("c04", f)
-			emitCase("c04", n, f.text, "", f.expected, true)
+			emitCase("c04", n, f.text, prevFailing, f.expected, true)
+			prevFailing = ""
+			// one file in six is followed by a FAILING text (a corruption of one of its definitions, as in the
+			// c12a stream; compared with the model as a c12b case): the parse of the next well-formed file has a
+			// failed parse directly behind it
+			if len(f.defs) > 0 && g.r.Intn(6) == 0 {
+				cs := corruptions(g, f, g.r.Intn(len(f.defs)))
+				c := cs[g.r.Intn(len(cs))]
+				emitCase("c12b", nfail, c.text, " interleaved-"+c.op, nil, false)
+				prevFailing = fmt.Sprintf(" previous-parse=c12b:%d(%s)", nfail, c.op)
+				nfail++
+			}
 		}
 	case "c12":
 		files, maxDefs, nrand := atoi(os.Args[3]), atoi(os.Args[4]), atoi(os.Args[5])
